@@ -508,6 +508,11 @@ fn run<K: Kt>(input: &mut dyn BufRead, out: &mut dyn Write) {
                     Err(_) => format!("panic {}", take_panic_msg()),
                 }
             }
+            "reset" => {
+                st = State { cur: None, saved: Default::default(), keys: Default::default() };
+                let _ = logs();
+                "reset".into()
+            }
             "build" => run_build(&mut st, &t[1..]),
             "op" => run_op(&mut st, &t[1..]),
             "save" => {
@@ -526,6 +531,27 @@ fn run<K: Kt>(input: &mut dyn BufRead, out: &mut dyn Write) {
                     Some(e) => {
                         st.cur = Some(e.clone());
                         "used".into()
+                    }
+                    None => "norec".into(),
+                }
+            }
+            "recode" => {
+                // decode-after-encode image of the current record, saved in a slot
+                let i: usize = t[1].parse().unwrap();
+                match &st.cur {
+                    Some(e) => {
+                        let mut enc = Vec::new();
+                        e.encode(&mut enc);
+                        let r = catch_unwind(AssertUnwindSafe(|| Enr::<K>::decode(&mut enc.as_slice())));
+                        let _ = logs();
+                        match r {
+                            Ok(Ok(d)) => {
+                                st.saved.insert(i, d);
+                                "recoded".into()
+                            }
+                            Ok(Err(_)) => "err".into(),
+                            Err(_) => format!("panic {}", take_panic_msg()),
+                        }
                     }
                     None => "norec".into(),
                 }
